@@ -59,7 +59,8 @@ def floors(tier):
        'ev:link_types': 35 * k, 'ev:link_parents': 35 * k,
        'ev:actuator_indices': 35 * k, 'ev:init_q': 35 * k,
        'ev:init_pose_equals_reference': 100 * k,
-       'ev:supported_control_accepted': 20}
+       'ev:supported_control_accepted': 20,
+       'ev:inplace_injected_feature_rejected': 100 * k}
   for feat in FEATURES:
     f['injected:' + feat] = 10 * (1 if tier == 'quick' else 10)
   return f
@@ -384,6 +385,43 @@ def run(job, mon):
                 e <= 1e-9 and np.asarray(st.q).shape == (nq,)
                 and np.asarray(st.qd).shape == (nv,),
                 lambda: wit(pipeline=name, err=e))
+    # a feature injected into the *same* MjModel object after it was accepted
+    # once must still be refused (how brax's own tests inject features)
+    import mujoco as _mj
+    inplace = []
+    if mj.ngeom >= 2:
+      inplace.append(('priority', lambda: mj.geom_priority.__setitem__(
+          int(rng.integers(1, mj.ngeom)), 1),
+                      lambda: mj.geom_priority.__setitem__(slice(None), 0)))
+    inplace += [
+        ('integrator', lambda: setattr(mj.opt, 'integrator', 1),
+         lambda: setattr(mj.opt, 'integrator', 0)),
+        ('cone', lambda: setattr(mj.opt, 'cone', 1),
+         lambda: setattr(mj.opt, 'cone', 0)),
+        ('impratio', lambda: setattr(mj.opt, 'impratio', 2.0),
+         lambda: setattr(mj.opt, 'impratio', 1.0)),
+        ('wind', lambda: mj.opt.wind.__setitem__(0, 1.0),
+         lambda: mj.opt.wind.__setitem__(0, 0.0)),
+    ]
+    if mj.nu:
+      inplace.append(('trntype', lambda: mj.actuator_trntype.__setitem__(
+          int(rng.integers(0, mj.nu)), 2),
+                      lambda: mj.actuator_trntype.__setitem__(slice(None), 0)))
+    name_f, do, undo = inplace[int(rng.integers(len(inplace)))]
+    do()
+    try:
+      for name, p in pipes:
+        try:
+          p.init(sys_, sys_.init_q, jp.zeros(sys_.qd_size()))
+          accepted = True
+        except Exception:  # pylint: disable=broad-except
+          accepted = False
+        mon.check('inplace_injected_feature_rejected', not accepted,
+                  lambda: wit(feature=name_f, pipeline=name,
+                              note='feature set on sys.mj_model after the '
+                              'model had been accepted once'))
+    finally:
+      undo()
     if c == job['first']:
       mon.sample(dict(model=c, link_types=types, link_parents=parents,
                       q_size=nq, qd_size=nv, act_size=len(spec['acts']),
